@@ -592,7 +592,10 @@ func (t *c08Tap) interceptor(server string) messageInterceptor {
 
 		ev.phase = t.phase
 		ev.seq = len(t.log)
-		t.phaseCount++
+		if ev.kind < c08NumFaultKinds {
+			// only HTLC traffic counts for the harness' triggers
+			t.phaseCount++
+		}
 		t.lastEvent = time.Now()
 		t.kindCount[ev.edge][ev.kind]++
 
